@@ -53,6 +53,7 @@ class Spec:
     """entry -> due time. Knows the documented API preconditions (to predict internal_error)."""
 
     def __init__(self, n, valid):
+        self.other = {}      # entries scheduled in the second scheduler (ops X/Z/Y)
         self.due = {}
         self.now = 0
         self.valid = valid
@@ -70,13 +71,20 @@ class Spec:
 
     def expect_err(self, o):
         k = o[0]
+        if k in "XZY":       # the same API on the second scheduler
+            mine, theirs = self.other, self.due
+            k = {"X": "W", "Z": "U", "Y": "E"}[k]
+        else:
+            mine, theirs = self.due, self.other
         if k in "WFC" or k in "UGD":
-            t, big = self.abs_time(o)
+            t, big = self.abs_time((k,) + tuple(o[1:]))
             if big or t == 0 or t < B or not self.valid[o[1]]:
                 return True
-            return k in "WFC" and o[1] in self.due
+            if o[1] in theirs:
+                return True          # scheduled in another scheduler
+            return k in "WFC" and o[1] in mine
         if k == "E":
-            return o[1] in self.due and not self.valid[o[1]]
+            return o[1] in theirs or (o[1] in mine and not self.valid[o[1]])
         return False
 
     def apply(self, o):
@@ -85,6 +93,10 @@ class Spec:
             self.due[o[1]] = self.abs_time(o)[0]
         elif k == "E":
             self.due.pop(o[1], None)
+        elif k in "XZ":
+            self.other[o[1]] = o[2]
+        elif k == "Y":
+            self.other.pop(o[1], None)
         elif k == "T":
             self.now = o[1]
 
@@ -254,8 +266,10 @@ def oracle(case, line):
         for kv in s_part[2:].split():
             e, _, d = kv.partition(":")
             got[int(e)] = int(d)
-    if got != sp.due:
-        bad.append(("final-schedule-mismatch", "scheduled entries at the end %s differ from the reference %s" % (sorted(got.items())[:6], sorted(sp.due.items())[:6])))
+    want = dict(sp.other)
+    want.update(sp.due)
+    if got != want:
+        bad.append(("final-schedule-mismatch", "scheduled entries at the end %s differ from the reference %s" % (sorted(got.items())[:6], sorted(want.items())[:6])))
     if not bad and st["fired"]:
         bad.append(("_nontrivial", ""))
     return bad
@@ -285,6 +299,10 @@ HAND = [
      [("W", 0, B + 5), ("W", 2, B + 90), ("L", B + 1, 3, 1000, -1), ("L", B + 3, 4, 1000, 2), ("L", B + 10, 5, 0, -1),
       ("L", B + 20, 80, 600 * US, 2), ("N", 9)]),
     (2, "-", {}, [("W", 0, B + 10 * US), ("W", 1, B + 50000), ("L", B, 300000, 600 * US, -1), ("L", B + 300000, 0, 600 * US, -1)]),
+    # an entry scheduled in a second scheduler: wait/update/erase on the first one throw, and vice versa
+    (3, "-", {2: [("U", 0, B + 9)]},
+     [("X", 0, B + 5), ("W", 0, B + 5), ("U", 0, B + 5), ("E", 0), ("W", 1, B + 2), ("X", 1, B + 2), ("Z", 1, B + 2), ("Y", 1),
+      ("Y", 0), ("W", 0, B + 3), ("Z", 0, B + 3), ("W", 2, B + 1), ("X", 0, B + 7), ("E", 0), ("X", 0, B + 7), ("P", B + 4), ("Y", 0)]),
     # invalid entries
     (3, "101", {}, [("W", 1, B + 1), ("U", 1, B + 1), ("E", 1), ("W", 0, B + 1), ("P", B + 1)]),
     # many tombstones at the front, next_timeout pops them
@@ -441,6 +459,39 @@ def loop_exhaustive(maxlen):
     return out
 
 
+def rnd_two_sched_case(R):
+    """Entries moving between two schedulers: every op on an entry that is scheduled in the other one must throw."""
+    n = R.choice([1, 2, 3, 4])
+    base = B + R.choice([0, 5, 1000 * US])
+    t = [base + i for i in range(4)]
+    scripts = {}
+    for e in range(n):
+        if R.random() < 0.4:
+            scripts[e] = [R.choice([("W", R.randrange(n), R.choice(t)), ("U", R.randrange(n), R.choice(t)), ("E", R.randrange(n)),
+                                    ("G", R.randrange(n), 2)]) for _ in range(R.choice([1, 2]))]
+    ops = [("T", base - 1)]
+    for _ in range(R.choice([4, 8, 14, 20])):
+        x = R.random()
+        e = R.randrange(n)
+        if x < 0.18:
+            ops.append(("X", e, R.choice(t + [0, B - 1])))
+        elif x < 0.30:
+            ops.append(("Z", e, R.choice(t)))
+        elif x < 0.42:
+            ops.append(("Y", e))
+        elif x < 0.60:
+            ops.append(("W", e, R.choice(t)))
+        elif x < 0.72:
+            ops.append(("U", e, R.choice(t)))
+        elif x < 0.84:
+            ops.append(("E", e))
+        elif x < 0.94:
+            ops.append(("P", R.choice(t)))
+        else:
+            ops.append(("N", 5))
+    return make_case(n, K, "-", scripts, ops)
+
+
 def exhaustive(stats):
     """All op lists of length <= 4 over 3 entries x 3 due times (25 letters), and of length 5 over
     2 entries x 2 times (13 letters), each under two handler configurations."""
@@ -484,6 +535,10 @@ def gen(seed, tier):
         cases.append(rnd_case(R, malformed=True))
     for _ in range(nb):
         cases.append(rnd_case(R, big=True))
+    n2 = 2000 if tier == "quick" else 20000
+    for _ in range(n2):
+        cases.append(rnd_two_sched_case(R))
+    stats["two_schedulers"] = n2
     nl = 4000 if tier == "quick" else 40000
     for _ in range(nl):
         cases.append(rnd_loop_case(R))
